@@ -7,9 +7,12 @@ prop("C16",
                 "NetworkPolicy API semantics allow (real proof by induction over the rule / peer / pod lists, no "
                 "sampling). The full statement is FALSE for the code: seven deviations (a)-(g) each have a `counter_*` "
                 "theorem and a replay through the real compiler; they are listed as known findings (plus the event-path "
-                "`relabel-stale-membership-until-resync` and `multiport-more-than-15-ports`: a rule with > 15 ports of one "
-                "protocol makes iptables refuse the whole policy batch, nothing is enforced; `counter_multiport`; the "
-                "fragment requires `overLimit = false`). The model "
+                "`relabel-stale-membership-until-resync`). Port lists of any length are inside the fragment: the compiler "
+                "splits them over rules of at most `multiportChunk` = 15 ports (regenerated from the chunk loops of "
+                "writePolicyChainRules; a port matches iff it is in the union of the chunks, `portChunks_contains`); the "
+                "former defect `multiport-more-than-15-ports` is fixed (8f04d5f): `counter_multiport` is about the pre-fix "
+                "rendering, `multiport_fixed` about the current one, corpus/C16/m.ops is a regression that must pass and "
+                "the fakes still refuse any rule with more than 15 ports (LimitIPT). The model "
                 "(`compileSets`/`compileTable`) is compared with the dump of the REAL policy manager on every run, "
                 "and the walk runs on the real dump. A second stream drives UPDATE transitions on a live manager over the "
                 "strict fakes (ipBlock surgery, pod relabel, policies deleted down to zero, one failing ipset create) and "
@@ -37,6 +40,6 @@ prop("C16",
                   "the harness computes them independently and compares the resulting names)",
                   "pod addresses distinct (WFCluster, Appendix E)",
                   "a flow is a NEW connection (the conntrack RELATED,ESTABLISHED rule does not match); built-in chain policy ACCEPT",
-                  "iptables' multiport limit of 15 ports is modelled (Model: checkRefs / overLimit; harness: LimitIPT in front of the fakes); named ports, SCTP, endPort, IPv6 and /0 ipBlocks (not storable in hash:net) are outside the modelled fragment"],
+                  "iptables' multiport limit of 15 ports is modelled (Model: checkRefs / portsOK, `overLimit_false` proves no emitted rule exceeds it; harness: LimitIPT in front of the fakes); named ports, SCTP, endPort, IPv6 and /0 ipBlocks (not storable in hash:net) are outside the modelled fragment"],
      timeout={"quick": 600, "thorough": 3000},
      )
